@@ -299,15 +299,18 @@ def _():
 
 @op("moving_average", group="window")
 def _():
-    return (lambda rng, w: {"n": rng.choice([0, 1, 2, 3]), "restrict": rng.random() < 0.4, "weights": rng.random() < 0.4},
-            lambda W, a: W.flw.moving_average(W.arr("elevf", np.float64), n=a["n"], restrict_strord=a["restrict"],
+    return (lambda rng, w: {"n": rng.choice([0, 1, 2, 3]), "restrict": rng.random() < 0.4, "weights": rng.random() < 0.4,
+                            "dt": rng.choice(["float64", "float32"])},
+            lambda W, a: W.flw.moving_average(W.arr("elevf", np.dtype(a.get("dt", "float64"))), n=a["n"], restrict_strord=a["restrict"],
                                               weights=W.arr("area_distinct", np.float64) if a["weights"] else None))
 
 
 @op("moving_median", group="window")
 def _():
-    return (lambda rng, w: {"n": rng.choice([0, 1, 2]), "restrict": rng.random() < 0.4},
-            lambda W, a: W.flw.moving_median(W.arr("elevf", np.float64), n=a["n"], restrict_strord=a["restrict"]))
+    return (lambda rng, w: {"n": rng.choice([0, 1, 2]), "restrict": rng.random() < 0.4,
+                            "dt": rng.choice(["float64", "float32", "int32"])},
+            lambda W, a: W.flw.moving_median(W.arr("elev" if a["dt"] == "int32" else "elevf", np.dtype(a["dt"])), n=a["n"],
+                                              restrict_strord=a["restrict"], nodata=-9999 if a["dt"] == "int32" else -9999.0))
 
 
 @op("smooth_rivlen", group="window")
@@ -318,8 +321,8 @@ def _():
 
 @op("dem_adjust", group="dem")
 def _():
-    return (lambda rng, w: {"kind": rng.choice(["elev", "elevf"])},
-            lambda W, a: W.flw.dem_adjust(W.arr(a["kind"], np.float32)))
+    return (lambda rng, w: {"kind": rng.choice(["elev", "elevf"]), "dt": rng.choice(["float32", "float64"])},
+            lambda W, a: W.flw.dem_adjust(W.arr(a["kind"], np.dtype(a.get("dt", "float32")))))
 
 
 @op("add_pits", group="mutate")
